@@ -530,6 +530,10 @@ def frame_rule(prog, run):
 
 
 def check(prog, run):
+    run.rule("R-kept", "a setup method that keeps a computed value on the instance (designed filters ..) hands it out again only while what it was computed from is the "
+             "same: the sampling attributes it reads are part of the look-up key, or every method that replaces them discards what was kept", 0)
+    from ..effects import memo_rule
+    memo_rule(prog.raw, run, "R-kept", ["pyoma2.setup"], "a later preprocessing step is carried out with a value computed for the previous sampling frequency / data")
     astq.shortcut_obligations(prog, run, ["functions.gen.pre_multisetup"])
     run.rule("R-inv", "the representation invariant holds after __init__ and is preserved by decimate/detrend/filter/rollback from an arbitrary invariant state (both setup classes)", 40)
     run.rule("R-post", "post-conditions: decimate => fs/q and count/q; detrend/filter => sampling attributes unchanged, data processed once more; rollback => initial values; add_algorithms binds current data/fs", 30)
